@@ -45,6 +45,9 @@ type linkedT struct {
 	L []linkedT `json:"l"`
 }
 type ptrP *ptrP
+type ptrA *ptrB
+type ptrB *ptrA
+type ptrQ **ptrQ
 
 func (sc *Depth) plan(t *core.Tape) *DepthPlan {
 	s := t.S("plan")
@@ -63,7 +66,7 @@ func (sc *Depth) plan(t *core.Tape) *DepthPlan {
 	case 3:
 		p.Read.MaxChunk = 1
 	}
-	p.Cyclic = []string{"pointer-self", "map-self", "slice-self", "interface-pointer", "pointer-to-pointer", "struct-ring", "deep-then-cycle"}[s.Draw(7)]
+	p.Cyclic = []string{"pointer-self", "map-self", "slice-self", "interface-pointer", "pointer-to-pointer", "struct-ring", "deep-then-cycle", "two-pointer-types", "double-pointer", "interface-in-struct-pointer"}[s.Draw(10)]
 	return p
 }
 
@@ -347,7 +350,7 @@ func (sc *Depth) Run(t *core.Tape, env *Env) (any, []core.Violation) {
 			return json.Unmarshal(b, &x)
 		})
 	case "Marshal-cyclic":
-		if p.Cyclic == "interface-pointer" || p.Cyclic == "pointer-to-pointer" {
+		if p.Cyclic == "interface-pointer" || p.Cyclic == "pointer-to-pointer" || p.Cyclic == "two-pointer-types" || p.Cyclic == "double-pointer" {
 			// these cycles never deepen the JSON nesting; unbounded recursion would
 			// overflow the stack, which is fatal to the process - so this case
 			// runs in a child process
@@ -488,6 +491,20 @@ func (sc *Depth) cyclicValue(p *DepthPlan) any {
 		var pp ptrP
 		pp = &pp
 		return pp
+	case "two-pointer-types":
+		var a ptrA
+		var b ptrB
+		a, b = &b, &a
+		return a
+	case "double-pointer":
+		var q ptrQ
+		var q1 *ptrQ = &q
+		q = &q1
+		return q
+	case "interface-in-struct-pointer":
+		n := &ptrNode{}
+		n.Leaf = n
+		return n
 	case "struct-ring":
 		a, b, c := &ptrNode{}, &ptrNode{}, &ptrNode{}
 		a.Next, b.Next, c.Next = b, c, a
